@@ -378,6 +378,7 @@ func vRelayout(t *rapid.T, d vDoc) vDoc {
 				nl.L = vGenEntryLayout(t, lo2, "alt.el")
 			case vkNote, vkTNote:
 				nl.L = vGenNoteLayout(t, lo2, "alt.nl")
+				nl.L.Quote = l.L.Quote // the quoted spelling puts a quote into the note's name: content, not layout
 			default:
 				continue
 			}
